@@ -182,3 +182,66 @@ Proof.
   split; [discriminate|]. split; [cbn; lia|].
   split; [exact Proofs.StatsFloat.ex_data_finite | exact Proofs.StatsFloat.ex_data_prefixes].
 Qed.
+
+(* ---- FLOAT instance: the standard deviation (Proofs/StdDevFloat.v) ----
+   m is the COMPUTED mean (arith_mean l = Some m); the bound is relative to S = sqrt (sum_i (x_i - m)^2 / d), the exact
+   deviation of the data AROUND THE COMPUTED MEAN, d = n or n-1.  Together with c18_arith_mean_float_error (distance of m
+   from the true mean) this is the two-step account of "equals its defining formula to within rounding".
+   Exponent n+5: subtraction (twice in the square) 2, squaring 1 (the product by 1.0 of powi is exact), summation n,
+   division 1, square root 1.  okmul / okdiv (Proofs/PolyFloat.v, SubstFloat.v): the operation is finite and its exact
+   value is zero or of magnitude >= 2^-1022 (no underflow error); the square root cannot underflow. *)
+From SV Require Import Proofs.PolyFloat Proofs.SubstFloat Proofs.StdDevFloat.
+
+Theorem c18_std_dev_float_error : forall (l : list PrimFloat.float) (sample : bool) (m : PrimFloat.float),
+  arith_mean l = Some m -> is_finite (Prim2B m) = true ->
+  (0 < std_denominator (length l) sample)%nat ->
+  (Z.of_nat (length l) < 2 ^ 53)%Z ->
+  (forall x, In x l -> is_finite (Prim2B x) = true /\
+                       is_finite (Prim2B (nsub x m)) = true /\ okmul (nsub x m) (nsub x m)) ->
+  (forall k, (k <= length l)%nat ->
+     is_finite (Prim2B (sum_list (firstn k (map (fun x => npowi (nsub x m) 2) l)))) = true) ->
+  okdiv (sum_list (map (fun x => npowi (nsub x m) 2) l)) (nofnat (std_denominator (length l) sample)) ->
+  is_finite (Prim2B (nsqrt (ndiv (sum_list (map (fun x => npowi (nsub x m) 2) l))
+                                 (nofnat (std_denominator (length l) sample))))) = true ->
+  exists v, std_dev l sample = Some v /\ is_finite (Prim2B v) = true /\
+    Rabs (B2R (Prim2B v)
+          - sqrt (Rsum (map (fun x => (B2R (Prim2B x) - B2R (Prim2B m)) ^ 2) l)
+                  / INR (std_denominator (length l) sample)))
+    <= ((1 + bpow radix2 (-53)) ^ (length l + 5) - 1)
+       * sqrt (Rsum (map (fun x => (B2R (Prim2B x) - B2R (Prim2B m)) ^ 2) l)
+               / INR (std_denominator (length l) sample)).
+Proof. exact Proofs.StdDevFloat.std_dev_float_error. Qed.
+Check c18_std_dev_float_error : forall (l : list PrimFloat.float) (sample : bool) (m : PrimFloat.float),
+  arith_mean l = Some m -> is_finite (Prim2B m) = true ->
+  (0 < std_denominator (length l) sample)%nat ->
+  (Z.of_nat (length l) < 2 ^ 53)%Z ->
+  (forall x, In x l -> is_finite (Prim2B x) = true /\
+                       is_finite (Prim2B (nsub x m)) = true /\ okmul (nsub x m) (nsub x m)) ->
+  (forall k, (k <= length l)%nat ->
+     is_finite (Prim2B (sum_list (firstn k (map (fun x => npowi (nsub x m) 2) l)))) = true) ->
+  okdiv (sum_list (map (fun x => npowi (nsub x m) 2) l)) (nofnat (std_denominator (length l) sample)) ->
+  is_finite (Prim2B (nsqrt (ndiv (sum_list (map (fun x => npowi (nsub x m) 2) l))
+                                 (nofnat (std_denominator (length l) sample))))) = true ->
+  exists v, std_dev l sample = Some v /\ is_finite (Prim2B v) = true /\
+    Rabs (B2R (Prim2B v)
+          - sqrt (Rsum (map (fun x => (B2R (Prim2B x) - B2R (Prim2B m)) ^ 2) l)
+                  / INR (std_denominator (length l) sample)))
+    <= ((1 + bpow radix2 (-53)) ^ (length l + 5) - 1)
+       * sqrt (Rsum (map (fun x => (B2R (Prim2B x) - B2R (Prim2B m)) ^ 2) l)
+               / INR (std_denominator (length l) sample)).
+Print Assumptions c18_std_dev_float_error.
+
+(* non-vacuity: ex_data = [0.1; 0.2; 0.3] with its computed mean (ex_mean) satisfies every hypothesis, for the
+   population and the sample form; checked by computation *)
+Example c18_std_dev_float_nonvacuous : forall sample : bool,
+  arith_mean ex_data = Some ex_mean /\ is_finite (Prim2B ex_mean) = true /\
+  (0 < std_denominator (length ex_data) sample)%nat /\
+  (Z.of_nat (length ex_data) < 2 ^ 53)%Z /\
+  (forall x, In x ex_data -> is_finite (Prim2B x) = true /\
+       is_finite (Prim2B (nsub x ex_mean)) = true /\ okmul (nsub x ex_mean) (nsub x ex_mean)) /\
+  (forall k, (k <= length ex_data)%nat ->
+     is_finite (Prim2B (sum_list (firstn k (map (fun x => npowi (nsub x ex_mean) 2) ex_data)))) = true) /\
+  okdiv (sum_list (map (fun x => npowi (nsub x ex_mean) 2) ex_data)) (nofnat (std_denominator (length ex_data) sample)) /\
+  is_finite (Prim2B (nsqrt (ndiv (sum_list (map (fun x => npowi (nsub x ex_mean) 2) ex_data))
+                                 (nofnat (std_denominator (length ex_data) sample))))) = true.
+Proof. exact Proofs.StdDevFloat.ex_std_dev_hyps. Qed.
